@@ -367,7 +367,20 @@ def prove(hyps, goal, rlimit=RLIMIT, use_cvc5=True, cvc5_timeout=30, use_abstrac
     if r == "unsat":
         return Verdict("proved", "z3", None, dt, used)
     if r == "sat":
-        return Verdict("refuted", "z3", env, dt, used)
+        # a z3 model is a counterexample only if the claim is false at that point under the REAL functions
+        # (uninterpreted cos/sin/exp/log/mod are under-axiomatised, their models can be spurious)
+        try:
+            full = {}
+            for t in tm.postorder(list(hyps) + [goal]):
+                if t.op == "v":
+                    full[t.args[0]] = env.get(t.args[0]) if env and env.get(t.args[0]) is not None else 0.0
+            hv = [tm.eval_float([h], full)[0] for h in hyps]
+            gv = tm.eval_float([goal], full)[0]
+            if all(x is True or x == True for x in hv) and (gv is False or gv == False):  # noqa: E712
+                return Verdict("refuted", "z3", full, dt, used)
+            return Verdict("undecided", "z3", None, dt, used, "z3 model is not a counterexample under float evaluation (uninterpreted functions / rounding)")
+        except Exception:
+            return Verdict("undecided", "z3", None, dt, used, "z3 model could not be evaluated")
     if use_abstraction:
         try:
             from . import ring
